@@ -922,9 +922,11 @@ func (r *Reader) processHeading(h headingXML) parsedParagraph {
 	}
 
 	// Parse outline level
+	explicitLevel := false
 	if h.OutlineLevel != "" {
 		if level, err := strconv.Atoi(h.OutlineLevel); err == nil && level >= 1 && level <= 9 {
 			parsed.Level = level
+			explicitLevel = true
 		}
 	}
 
@@ -932,8 +934,9 @@ func (r *Reader) processHeading(h headingXML) parsedParagraph {
 	if r.styleResolver != nil {
 		resolved := r.styleResolver.Resolve(h.StyleName)
 		parsed.Alignment = resolved.Alignment
-		// If style has heading level, prefer that
-		if resolved.IsHeading && resolved.HeadingLevel > 0 {
+		// The heading's own outline level is authoritative; the style's
+		// level only fills in when the heading does not carry one
+		if !explicitLevel && resolved.IsHeading && resolved.HeadingLevel > 0 {
 			parsed.Level = resolved.HeadingLevel
 		}
 	}
